@@ -28,6 +28,9 @@ func scaleCases(tier string) []scalekit.Case {
 	for _, n := range scale.Sizes(64, 4097) {
 		out = append(out, scalekit.Case{Shape: "long-arguments", N: n})
 	}
+	for _, n := range scale.Sizes(40, 129) {
+		out = append(out, scalekit.Case{Shape: "many-imports", N: n})
+	}
 	return out
 }
 
@@ -116,7 +119,42 @@ func checkMany(cs scalekit.Case) scalekit.Verdict {
 	return scalekit.OK()
 }
 
+// many-imports: every typedef, leaf, augment and deviation of a module with n imports reaches the
+// module its prefix names
+func checkManyImports(cs scalekit.Case) scalekit.Verdict {
+	for _, rev := range []bool{false, true} {
+		ms, errs, lerr := scalekit.Load(scale.Imports(cs.N), rev)
+		if lerr != nil {
+			return scalekit.Bad("load-error", "loads", lerr.Error())
+		}
+		if len(errs) > 0 {
+			return scalekit.Bad("spurious-errors", "no errors", dump.Errors(errs))
+		}
+		root := yang.ToEntry(ms.Modules["m"])
+		for i := 1; i <= cs.N; i++ {
+			want := fmt.Sprintf("kind=int8 range=0..%d", i%100+1)
+			l := root.Dir[fmt.Sprintf("l%d", i)]
+			c := yang.ToEntry(ms.Modules[fmt.Sprintf("lib%d", i)]).Dir["c"]
+			if l == nil || l.Type == nil || c == nil || c.Dir["a"] == nil || c.Dir["a"].Type == nil {
+				return scalekit.Bad("reference-leaf-missing", fmt.Sprintf("l%d and /lib%d:c/a", i, i), "missing")
+			}
+			for _, t := range []*yang.YangType{l.Type, c.Dir["a"].Type} {
+				if got := fmt.Sprintf("kind=%s range=%s", yang.TypeKindToName[t.Kind], t.Range); got != want {
+					return scalekit.Bad("binds-wrong-typedef", fmt.Sprintf("import %d of %d (prefix %s): %s", i, cs.N, scale.ImportPrefix(cs.N, i), want), got)
+				}
+			}
+			if c.Config != yang.TSFalse {
+				return scalekit.Bad("deviation-through-prefix-not-applied", fmt.Sprintf("/lib%d:c config false", i), fmt.Sprint(c.Config))
+			}
+		}
+	}
+	return scalekit.OK()
+}
+
 func checkScale(cs scalekit.Case) scalekit.Verdict {
+	if cs.Shape == "many-imports" {
+		return checkManyImports(cs)
+	}
 	if cs.Shape == "many-leaves" || cs.Shape == "counts" || cs.Shape == "long-arguments" {
 		return checkMany(cs)
 	}
